@@ -65,6 +65,7 @@ type c11Case struct {
 	Gz      int        `json:"gz,omitempty"`      // long/conc: 0 plain, 1 gzip
 	Barrier bool       `json:"barrier,omitempty"` // conc: rendezvous of all requests inside their 2nd Read (after the copy)
 	G       [][]c11Req `json:"g,omitempty"`       // conc: per goroutine its successive requests
+	Mes     int        `json:"mes,omitempty"`     // long: max_event_size of the pipeline: 1 longest line - 1, 2 half of it, 3 the read-buffer size (if below), 4 the longest line
 	Size    int        `json:"size,omitempty"`    // ratio: decompressed size aimed at (every terminated line is repeated to get there)
 	Ratio   int        `json:"ratio,omitempty"`   // ratio: decompressed size / compressed size aimed at (0: as compressible as it gets)
 	Trunc   bool       `json:"trunc,omitempty"`   // long + gz: the gzip payload is cut short
@@ -90,6 +91,7 @@ type c11Mismatch struct {
 	Detail    string   `json:"detail,omitempty"`
 	Panic     string   `json:"panic,omitempty"`
 	FreshRepr *bool    `json:"repro_on_fresh_plugin,omitempty"`
+	Mes       int      `json:"max_event_size"`
 	Case      *c11Case `json:"case"`
 }
 
@@ -466,6 +468,7 @@ type c11Plug struct {
 	rec  *c11Rec
 	path string
 	cfg  int
+	mes  int // the pipeline's max_event_size the plugin was started with (0 = unlimited)
 }
 
 var c11PlugSeq int64
@@ -473,7 +476,11 @@ var c11PlugSeq int64
 var c11Probe sync.Pool // harness-owned: does a Put made inside the blocked In reach the Get of the request started there?
 
 // cfg: bit 0 = avg_event_size 1 instead of 4096 (fresh carry-over buffer re-allocates), bit 1 = emulate_mode elasticsearch (/_bulk)
-func c11NewPlug(cfgIdx int) *c11Plug {
+func c11NewPlug(cfgIdx int) *c11Plug { return c11NewPlugM(cfgIdx, 0) }
+
+// mes: PipelineSettings.MaxEventSize.  The limit is Pipeline.In's business (it drops or cuts over-long events and
+// counts them); whatever it is, the input must hand over the lines of the body.
+func c11NewPlugM(cfgIdx, mes int) *c11Plug {
 	config := &Config{Address: "off"}
 	path := "/"
 	if cfgIdx&2 != 0 {
@@ -502,6 +509,7 @@ func c11NewPlug(cfgIdx int) *c11Plug {
 			PipelineName: name,
 			PipelineSettings: &pipeline.Settings{
 				AvgEventSize:  avg,
+				MaxEventSize:  mes,
 				MetaCacheSize: pipeline.DefaultMetaCacheSize,
 			},
 			MetricCtl: metric.NewCtl(name, prometheus.NewRegistry(), 0, 0),
@@ -509,7 +517,7 @@ func c11NewPlug(cfgIdx int) *c11Plug {
 		Controller: rec,
 		Logger:     zap.NewNop().Sugar(),
 	})
-	return &c11Plug{p: p, rec: rec, path: path, cfg: cfgIdx}
+	return &c11Plug{p: p, rec: rec, path: path, cfg: cfgIdx, mes: mes}
 }
 
 type c11Result struct {
@@ -596,6 +604,11 @@ type c11Stats struct {
 	GzCutHeader      int    `json:"gzip_payload_cut_inside_header"`
 	GzCutData        int    `json:"gzip_payload_cut_inside_deflate_data"`
 	GzCutTrailer     int    `json:"gzip_payload_cut_inside_trailer"`
+	MesRequests      int    `json:"requests_with_max_event_size_set"`
+	MesBelow         int    `json:"requests_with_max_event_size_below_their_longest_line"`
+	MesBelowCross    int    `json:"requests_with_over_limit_line_crossing_a_read_boundary"`
+	MesEqual         int    `json:"requests_with_max_event_size_equal_to_their_longest_line"`
+	MesAbove         int    `json:"requests_with_max_event_size_above_their_longest_line"`
 	RatioRequests    int    `json:"ratio_requests_with_content_length"`
 	RatioOver100     int    `json:"ratio_requests_inflating_more_than_100_times"`
 	RatioOver300     int    `json:"ratio_requests_inflating_more_than_300_times"`
@@ -669,6 +682,7 @@ func c11Shape(r *c11Req, st *c11Stats) {
 
 type c11Worker struct {
 	plugs [4]*c11Plug
+	extra map[[2]int]*c11Plug // plugins started with a max_event_size, by (configuration, limit)
 	gz    c11Gz
 	st    c11Stats
 	mms   []*c11Mismatch
@@ -760,6 +774,7 @@ type c11Variant struct {
 	scale int
 	unlim bool
 	alpha c11Alpha
+	mes   int  // max_event_size of the pipeline the plugin is started with (0 = unlimited)
 	trunc bool // gzip only: the payload is cut short (header / deflate data / trailer) although the transport ends with a clean io.EOF
 }
 
@@ -804,6 +819,45 @@ func (w *c11Worker) runSeq(pl *c11Plug, c *c11Case, v c11Variant, count bool) (m
 			if v.gz {
 				w.st.GzipRequests++
 			}
+			if pl.mes > 0 {
+				w.st.MesRequests++
+				longest := 0
+				for _, l := range want {
+					if len(l) > longest {
+						longest = len(l)
+					}
+				}
+				switch {
+				case pl.mes < longest:
+					w.st.MesBelow++
+					// does a line longer than the limit have a read boundary inside (its head sits in the carry-over)?
+					pos, lineStart, bounds := 0, 0, map[int]bool{}
+					for _, n := range sizes {
+						pos += n
+						bounds[pos] = true
+					}
+					cross := false
+					for i := 0; i <= len(body); i++ {
+						if i == len(body) || body[i] == '\n' {
+							if i-lineStart > pl.mes {
+								for b := lineStart + 1; b < i; b++ {
+									if bounds[b] {
+										cross = true
+									}
+								}
+							}
+							lineStart = i + 1
+						}
+					}
+					if cross && !v.gz && !v.unlim {
+						w.st.MesBelowCross++
+					}
+				case pl.mes == longest:
+					w.st.MesEqual++
+				default:
+					w.st.MesAbove++
+				}
+			}
 			if ri > 0 {
 				w.st.SecondReqs++
 				if prevFailed {
@@ -844,7 +898,7 @@ func (w *c11Worker) runSeq(pl *c11Plug, c *c11Case, v c11Variant, count bool) (m
 			}
 		}
 		mk := func(kind, detail string) *c11Mismatch {
-			return &c11Mismatch{Kind: kind, Fam: c.Fam, Variant: v.name, Cfg: pl.cfg, Req: ri, End: r.End, Status: res.status,
+			return &c11Mismatch{Kind: kind, Fam: c.Fam, Variant: v.name, Cfg: pl.cfg, Mes: pl.mes, Req: ri, End: r.End, Status: res.status,
 				StatusAt: res.statusAt - res.start, NCalls: len(calls), Want: c11Trim(want), Got: c11Trim(c11Datas(calls)),
 				Detail: detail, Panic: res.panicMsg, Case: c}
 		}
@@ -919,6 +973,29 @@ func (w *c11Worker) run(c *c11Case) {
 			variants = append(variants, c11Variant{name: "gzip", gz: true, scale: 1, alpha: c11Small})
 			variants = append(variants, c11Variant{name: "gzip-truncated", gz: true, scale: 1, alpha: c11Small, trunc: true})
 		}
+		// the same replay under a pipeline with max_event_size below / equal to / above the longest line of the case
+		longest := 0
+		for i := range c.Reqs {
+			for _, l := range c.Reqs[i].Exp {
+				if len(l) > longest {
+					longest = len(l)
+				}
+			}
+		}
+		if longest > 0 {
+			rel := [3]string{"below", "equal to", "above"}[(c.ID/4)%3]
+			m := longest + (c.ID/4)%3 - 1
+			if m < 1 {
+				m, rel = longest, "equal to"
+			}
+			tag := " max_event_size " + rel + " the longest line"
+			if c.Only != "gzip" {
+				variants = append(variants, c11Variant{name: "plain" + tag, scale: 1, alpha: c11Small, mes: m})
+			}
+			if c.Only != "plain" {
+				variants = append(variants, c11Variant{name: "gzip" + tag, gz: true, scale: 1, alpha: c11Small, mes: m})
+			}
+		}
 	case "long":
 		w.st.LongCases++
 		name := "long-plain"
@@ -928,18 +1005,68 @@ func (w *c11Worker) run(c *c11Case) {
 		if c.Trunc && c.Gz == 1 {
 			name = "long-gzip-truncated"
 		}
-		variants = append(variants, c11Variant{name: name, gz: c.Gz == 1, scale: c.Scale, unlim: c.Unlim, alpha: c11Long, trunc: c.Trunc && c.Gz == 1})
+		mes := 0
+		if c.Mes > 0 { // a limit below (1..3) or equal to (4) the longest line of the blown-up body
+			longest := 0
+			for i := range c.Reqs {
+				for _, l := range c.Reqs[i].Exp {
+					n := 0
+					for _, sym := range l {
+						n += c11SymLen(sym, c.Scale)
+					}
+					if n > longest {
+						longest = n
+					}
+				}
+			}
+			switch c.Mes {
+			case 1:
+				mes = longest - 1
+			case 2:
+				mes = longest / 2
+			case 3:
+				mes = readBufDefaultLen
+				if mes >= longest {
+					mes = longest - 1
+				}
+			default:
+				mes = longest
+			}
+			if mes > 0 {
+				name += " max_event_size=" + [5]string{"", "longest-1", "longest/2", "read buffer", "longest"}[c.Mes]
+			} else {
+				mes = 0
+			}
+		}
+		variants = append(variants, c11Variant{name: name, gz: c.Gz == 1, scale: c.Scale, unlim: c.Unlim, alpha: c11Long, trunc: c.Trunc && c.Gz == 1, mes: mes})
 	}
-	pl := w.plugs[c.ID%4]
 	if c.Fam == "ratio" {
-		w.runRatio(pl, c)
+		w.runRatio(w.plugs[c.ID%4], c)
 		return
 	}
 	for _, v := range variants {
+		pl := w.plugs[c.ID%4]
+		if v.mes > 0 {
+			if c.Fam == "long" { // limits of all sizes: a plugin of its own
+				pl = c11NewPlugM(c.ID%4, v.mes)
+			} else {
+				key := [2]int{c.ID % 4, v.mes}
+				if w.extra == nil {
+					w.extra = map[[2]int]*c11Plug{}
+				}
+				if w.extra[key] == nil {
+					w.extra[key] = c11NewPlugM(key[0], key[1])
+				}
+				pl = w.extra[key]
+			}
+		}
 		mms := w.runSeq(pl, c, v, true)
+		if v.mes > 0 && c.Fam == "long" {
+			pl.p.Stop()
+		}
 		for _, m := range mms {
 			// does it need the state left behind by earlier cases? re-run on a fresh plugin of the same configuration
-			fresh := c11NewPlug(pl.cfg)
+			fresh := c11NewPlugM(pl.cfg, pl.mes)
 			again := w.runSeq(fresh, c, v, false)
 			fresh.p.Stop()
 			ok := false
@@ -1571,6 +1698,9 @@ func TestVerifC11(t *testing.T) {
 	byClass := map[string]int{}
 	for _, w := range workers {
 		for _, pl := range w.plugs {
+			pl.p.Stop()
+		}
+		for _, pl := range w.extra {
 			pl.p.Stop()
 		}
 		total.add(&w.st)
